@@ -11,6 +11,7 @@ import (
 	"os"
 	"path/filepath"
 	"sort"
+	"strconv"
 	"strings"
 	"testing"
 	"time"
@@ -33,6 +34,9 @@ var (
 	fShrink  = flag.Int("sim.shrink", 250, "max runs spent minimising one violation")
 	fHashOut = flag.String("sim.hashout", "", "write \"index tracehash\" lines here (determinism self-test)")
 	fMaxViol = flag.Int("sim.maxviol", 4, "max violations minimised per worker per signature class")
+	fProgress = flag.String("sim.progress", "", "file that always holds the index of the case being run (lets the caller attribute a process crash)")
+	fSkip     = flag.String("sim.skip", "", "comma separated case indices to skip (cases that crashed the process earlier)")
+	fEmit     = flag.Int("sim.emitcase", -1, "write a process-crashed replay file for this case index to -sim.out and exit")
 )
 
 // World is what a harness provides.
@@ -254,6 +258,22 @@ func Main(t *testing.T, w World) {
 		replay(t, w, *fReplay)
 		return
 	}
+	if *fEmit >= 0 {
+		c := CaseFor(w, *fSeed, *fEmit, prop, *fTier)
+		rp := Replay{World: w.Name, Property: prop, Clause: "process-crashed", Detail: "the process running this case died (fatal runtime error)", TraceHash: "crash", Case: c,
+			Original: map[string]int64{"ops": int64(len(c.Program)), "faults": int64(len(c.Faults))}}
+		b, _ := json.MarshalIndent(rp, "", " ")
+		if err := os.WriteFile(*fOut, b, 0o644); err != nil {
+			t.Fatal(err)
+		}
+		return
+	}
+	skip := map[int]bool{}
+	for _, f := range strings.Split(*fSkip, ",") {
+		if n, err := strconv.Atoi(strings.TrimSpace(f)); err == nil {
+			skip[n] = true
+		}
+	}
 	rep := &Report{World: w.Name, Property: prop, Tier: *fTier, BaseSeed: *fSeed, Start: *fStart,
 		FaultsFired: map[string]int{}, Probes: map[string]int{}, ClauseCounts: map[string]int{}, Real: w.Real, Stub: w.Stub}
 	sigs := map[uint64]bool{}
@@ -277,6 +297,12 @@ func Main(t *testing.T, w World) {
 	for i := *fStart; i < *fStart+*fN; i++ {
 		if *fBudget > 0 && time.Since(began) > time.Duration(*fBudget)*time.Second {
 			break
+		}
+		if skip[i] {
+			continue
+		}
+		if *fProgress != "" {
+			os.WriteFile(*fProgress, []byte(strconv.Itoa(i)), 0o644)
 		}
 		c := CaseFor(w, *fSeed, i, prop, *fTier)
 		keep := *fDump || len(rep.Samples) < 2
